@@ -5,6 +5,7 @@ import (
 	"fmt"
 	"runtime/debug"
 	"testing"
+	"time"
 
 	"github.com/parquet-go/parquet-go"
 	"pgregory.net/rapid"
@@ -144,6 +145,7 @@ var copySpec = &kit.Spec[CopyCase]{
 	Scale:       0.5,
 	Gen:         genCopy,
 	Run:         runCopy,
+	CaseTimeout: 15 * time.Minute,
 }
 
 func TestPropCopy(t *testing.T) { kit.Both(t, copySpec) }
